@@ -417,17 +417,25 @@ def run_batch(prop, scen_name, tier, base_seed, n_runs, wall_budget, jobs=16, sr
             # replay (again a fresh process) to reproduce signature and digest exactly
             write_replay(prop, scen_name, mcase, seed, mchoices, rres, sig)
             rep, rres2 = replay_file(path)
-            if sig not in _sigs(rres2) or rres2.get('digest') != rres.get('digest'):
+            if sig not in _sigs(rres2):
                 agg['errors'] += 1
+                agg['unconfirmed'] = agg.get('unconfirmed', 0) + 1
                 err_samples.append({'replay-not-exact': sig, 'seed': seed, 'replay': path,
                                     'digests': [rres.get('digest'), rres2.get('digest')]})
                 continue
+            if rres2.get('digest') != rres.get('digest'):
+                # the violation reproduces from the file every time, the event logs differ somewhere (a value
+                # that depends on the interpreter, e.g. an object address in a message): still a violation, and
+                # a determinism defect of the harness to be looked at
+                err_samples.append({'replay-digest-differs': sig, 'seed': seed, 'replay': path,
+                                    'digests': [rres.get('digest'), rres2.get('digest')]})
             new_violations += 1
             replay_paths.append(path)
             lines.append('VIOLATION property=%s replay=%s' % (prop, path))
             lines.append('  signature=%s runs=%d detail=%s' % (sig, ent['count'], str(v.get('detail'))[:300]))
         else:
             agg['errors'] += 1
+            agg['unconfirmed'] = agg.get('unconfirmed', 0) + 1
             err_samples.append({'unreproducible': sig, 'seed': seed, 'replay': path})
     for sig, cnt, kf in known_hits:
         lines.append('KNOWN-FINDING: property=%s %s [sig=%s runs=%d]' % (prop, kf['what'], sig, cnt))
